@@ -227,11 +227,11 @@ func (s *NodeIdStorage) LoadByNodeId(ctx context.Context, m nodeenrollment.Messa
 // Faulty fails exactly the FailAt-th storage operation (0-based; negative: never) with an error of the
 // given kind, without applying it; every other operation goes to Inner.
 type Faulty struct {
-	Inner  nodeenrollment.Storage
-	N      int
-	FailAt int
+	Inner   nodeenrollment.Storage
+	N       int
+	FailAt  int
 	ErrKind int // 0 generic, 1 ErrNotFound, 2 context.Canceled
-	Hit    bool
+	Hit     bool
 }
 
 func (f *Faulty) fault() error {
